@@ -3,7 +3,7 @@
 
    Model/State.v `run cfg state_init h` is the impl-model of the client processing the
    received history h (the state handlers of builtin.go, modes.go, cap.go, cap_tags.go).
-   Spec/NetRef.v: `ref_run h` is the reference model's told-state ("what the client has been
+   Spec/NetRef.v: `told_run h` is the reference model's told-state ("what the client has been
    told": joined channels with topic, modes and ONE membership relation; one record per nick;
    server options; MOTD; users forgotten exactly when they share no joined channel),
    `conformant_history h` says that a correct server may send h, `abs s` is the told-state an
@@ -11,20 +11,20 @@
    membership relation and the mode classes frozen in each channel).
    Model/StateGetters.v models the read side of the state API. *)
 Require Import Bytes AMap SMap Names State StateGetters NetRef.
-Require Import StateInv NetRefLemmas StateRefine C04Getters C04Proofs.
+Require Import StateInv NetRefLemmas StateRefine C04Getters ToldEq C04Proofs.
 
 (* every conformant history is processed without panic and leaves the client in the state
    that stands for exactly what it has been told *)
 Theorem C04_refines : forall cfg h, conformant_history h = true ->
-  exists s out, run cfg state_init h = Ok (s, out) /\ abs s = ref_run h.
-Proof. exact refines. Qed.
+  exists s out, run cfg state_init h = Ok (s, out) /\ abs s = told_run h.
+Proof. exact refines_told. Qed.
 Print Assumptions C04_refines.
 
 (* the one-step simulation it is proven from (Inv: C05's structural invariant; Fresh: every
    channel's mode classes are those of the current server options; RWf: canonical form) *)
 Theorem C04_refines_step : forall cfg s e, Inv s -> Fresh s -> RWf (abs s) -> conformant (abs s) e = true ->
-  exists s' out, handle cfg s e = Ok (s', out) /\ Inv s' /\ Fresh s' /\ RWf (abs s') /\ abs s' = ref_step (abs s) e.
-Proof. exact refines_step. Qed.
+  exists s' out, handle cfg s e = Ok (s', out) /\ Inv s' /\ Fresh s' /\ RWf (abs s') /\ abs s' = told_step (abs s) e.
+Proof. exact refines_step_told. Qed.
 Print Assumptions C04_refines_step.
 
 (* the statement is about the state API: each getter is the corresponding view of abs s *)
@@ -87,6 +87,13 @@ Theorem C04_users_forgotten : forall cfg h s o nick, run cfg state_init h = Ok (
 Proof. exact users_forgotten. Qed.
 Print Assumptions C04_users_forgotten.
 
+(* on conformant histories the literal reading told_run and the reading ref_run (which does
+   not record again what a message merely repeats about a known user) are the same state;
+   conformant_history is defined along ref_run *)
+Theorem C04_told_is_ref : forall h, conformant_history h = true -> told_run h = ref_run h.
+Proof. exact told_run_eq. Qed.
+Print Assumptions C04_told_is_ref.
+
 (* told-states stay in canonical form, so "=" above is equality of contents *)
 Theorem C04_told_canonical : forall h, RWf (ref_run h).
 Proof. exact told_canonical. Qed.
@@ -99,7 +106,7 @@ Proof. exact ex_conformant. Qed.
 Print Assumptions C04_example_conformant.
 
 Theorem C04_example_told :
-  let r := ref_run ex_history in
+  let r := told_run ex_history in
   v_channel_list r = [bs "#Chan"; bs "&Two"] /\ v_user_list r = [bs "Alice"; bs "me"] /\
   option_map (fun c => (v_channel_users c, v_modes_string (rc_modes c), mode_has 107 (rc_modes c), mode_arg 108 (rc_modes c)))
      (v_lookup_channel r (bs "#CHAN")) = Some ([bs "alice"; bs "me"], bs "+ntl 5", false, Some (bs "5")) /\
